@@ -240,8 +240,34 @@ func runC20(r resIface, c *c20case) {
 	select {
 	case o = <-ch:
 	case <-time.After(90 * time.Second):
-		r.Inconcl(fmt.Sprintf("GetSlotState did not return within 90 s (back-off budget is 21 s) for %s", c.Shape))
-		return
+		// "... then fails with an error instead of ... hanging": decided on what the nodes saw, not on the clock alone -
+		// a call that has used up its 1+6 probe rounds (or stopped probing for a minute: the longest back-off step is 6 s)
+		// and still has not returned hangs; anything else only says the machine was too slow
+		probes := func() (max, sum int) {
+			for _, n := range c.Nodes {
+				n.mu.Lock()
+				if n.probes > max {
+					max = n.probes
+				}
+				sum += n.probes
+				n.mu.Unlock()
+			}
+			return
+		}
+		mx, before := probes()
+		select {
+		case o = <-ch:
+		case <-time.After(60 * time.Second):
+		}
+		_, after := probes()
+		if o.node == nil && o.err == nil {
+			if mx >= 7 || after == before {
+				r.Violation("C20|outcome=call-does-not-return", fmt.Sprintf("GetSlotState has not returned 150 s after it was called (back-off budget 21 s); the nodes saw at most %d probe rounds, %d probes in the last minute", mx, after-before), c)
+			} else {
+				r.Inconcl(fmt.Sprintf("GetSlotState did not return within 150 s but is still probing (%d probes in the last minute) for %s", after-before, c.Shape))
+			}
+			return
+		}
 	}
 	took := time.Since(t0)
 	r.Case(c.Shape)
